@@ -707,6 +707,37 @@ fn live_resolver(tier: &str, seed: u64) -> Case {
         }
         let _ = h2.join();
     }
+    // the raw entry point: `query_packet` sends the caller's packet and hands back the first response datagram with the
+    // packet's id and at least one answer - hostile and short datagrams, responses with other ids and empty ones pass by
+    if let Ok(mut resolver) = OneShotMdnsResolver::new() {
+        resolver.set_query_timeout(Duration::from_millis(900));
+        resolver.set_unicast_response(false);
+        let (tx, rx) = std::sync::mpsc::channel();
+        let h4 = std::thread::spawn(move || {
+            let mut q = Packet::new_query(0x4242);
+            q.questions.push(Question::new(Name::new_unchecked("verif-raw14._tcp.local"), TYPE::TXT.into(), CLASS::IN.into(), false));
+            let r = std::panic::catch_unwind(std::panic::AssertUnwindSafe(|| resolver.query_packet(q)));
+            let _ = tx.send(match r { Ok(Ok(Some(b))) => format!("ok {}", text::hex(&b)), Ok(Ok(None)) => "none".to_string(), Ok(Err(_)) => "err".to_string(), Err(_) => "panic".to_string() });
+        });
+        std::thread::sleep(Duration::from_millis(150));
+        for d in [vec![], vec![0x42u8], vec![0x42, 0x42, 0x80], vec![0x43, 0x43, 0x80, 0, 0, 0, 0, 1], vec![0xFFu8; 11]] { let _ = sock.send_to(&d, dest); }
+        // (a truncated datagram that carries the query's own id, the response bit and a non-zero ANCOUNT in its first eight
+        // bytes would be handed back as it is - `query_packet` returns raw bytes, and no property speaks about that; the
+        // truncated one here has another id)
+        let rname = Name::new_unchecked("verif-raw14._tcp.local");
+        let mk = |id: u16, with_answer: bool| { let mut p = Packet::new_reply(id); if with_answer { p.answers.push(ResourceRecord::new(rname.clone(), CLASS::IN, 5, RData::TXT(simple_dns::rdata::TXT::new().with_string("k=v").unwrap()))); } p.build_bytes_vec_compressed().unwrap() };
+        let _ = sock.send_to(&mk(0x4243, true), dest);
+        let _ = sock.send_to(&mk(0x4242, false), dest);
+        let wanted = mk(0x4242, true);
+        let _ = sock.send_to(&wanted, dest);
+        match rx.recv_timeout(Duration::from_secs(8)) {
+            Ok(s) if s == "panic" => { c = c.fail("resolver-panic", "query_packet panicked".into()); }
+            Ok(s) if s.starts_with("ok ") => { c = c.tag("resolver-raw-answered"); if s != format!("ok {}", text::hex(&wanted)) { c = c.fail("resolver-answer", format!("query_packet returned {} bytes that are not the response with its id and an answer", (s.len() - 4) / 2)); } }
+            Ok(_) => { c = c.tag("resolver-raw-no-answer"); }
+            Err(_) => { c = c.fail("resolver-wedged", "query_packet did not return within 8 s of a 0.9 s timeout".into()); return c; }
+        }
+        let _ = h4.join();
+    }
     // a query ends at its timeout however much unrelated traffic arrives meanwhile: other hosts' queries, 25 per second
     // for 2.5 s, while a query with a 0.5 s timeout for a name nobody answers is pending
     if let Ok(mut resolver) = OneShotMdnsResolver::new() {
